@@ -743,6 +743,9 @@ func NewFilledFeatureReferences(byID *FeaturesByID) *FeatureReferencesByID {
 func (f *FeatureReferencesByID) findReferences(id b6.FeatureID, m *map[b6.Reference]bool) {
 	if references, ok := (*f)[id]; ok {
 		for _, reference := range references {
+			if (*m)[reference] {
+				continue // Already visited: references can form cycles
+			}
 			(*m)[reference] = true
 			f.findReferences(reference.Source(), m)
 		}
